@@ -183,9 +183,13 @@ def run_case(case):
                         proc = st['procs'].get(namespec)
                         r = rng.random()
                         if proc is None or r < 0.05:
+                            old_pid = proc['pid'] if proc is not None else None
                             if proc is not None:
                                 pidc += 1
                             proc = st['procs'][namespec] = {'pid': rng.randint(2, 30000), 'work': 0.0, 'refs': {}}
+                            if proc['pid'] == old_pid:
+                                # the same pid twice in a row would be the same process for any observer
+                                proc['pid'] = old_pid + 1
                         if r > 0.93:
                             stats = {'namespec': namespec, 'pid': 0, 'now': st['now']}
                             st['procs'].pop(namespec, None)
